@@ -40,6 +40,46 @@ pub fn check_extra(c: &ExtraCase) -> Verdict {
     }
 }
 
+/// generated target types (dynde scripts): both entry points must show the visitors the same things
+pub fn check_dyn(c: &super::c07::DynCase) -> Verdict {
+    use crate::dynde;
+    if crate::refxml::is_utf16_like(c.input.as_bytes()) {
+        return Verdict::excluded("utf16-signature");
+    }
+    let budget = super::c07::dyn_budget(c);
+    dynde::set_budget(budget);
+    let cuts = super::c02::normalise_cuts(c.input.as_bytes(), c.cuts.as_deref().unwrap_or(&[]));
+    let mut over_a = false;
+    let mut steps = 0;
+    let both = std::panic::catch_unwind(std::panic::AssertUnwindSafe(|| {
+        let a = dynde::from_str(&c.script, &c.input);
+        over_a = dynde::overrun();
+        steps = dynde::steps();
+        dynde::set_budget(budget);
+        let b = dynde::from_reader(&c.script, ChunkedBufRead::new(c.input.as_bytes(), cuts.clone()));
+        (a, b)
+    }));
+    let (a, b) = match both {
+        Ok(x) => x,
+        Err(p) => {
+            let msg = crate::engine::panic_message(&p);
+            if msg.contains("entered unreachable code: BytesEnd") && c.script.has_early_stop() {
+                return Verdict::excluded("known finding F10 of C07 (visitor stops early, End event at unreachable!)");
+            }
+            return Verdict::fail(format!("panic: {} | script {:?} | input {:?}", msg, c.script, c.input));
+        }
+    };
+    if over_a || dynde::overrun() {
+        return Verdict::excluded("visitor-step-budget-exhausted (reported by C07)");
+    }
+    let interesting = steps >= 3 && (c.input.contains("<![CDATA[") || c.input.contains("<!--") || c.input.contains("<?") || c.input.contains("<!DOCTYPE") || c.input.contains('&') || c.input.contains("nil") || steps >= 8);
+    match (&a, &b) {
+        (Ok(x), Ok(y)) if x == y => Verdict::pass(interesting).class("scripted-target-both-ok"),
+        (Err(_), Err(_)) => Verdict::pass(interesting).class("scripted-target-both-err"),
+        _ => Verdict::fail(format!("scripted target: from_str gives {:?}, from_reader (cuts {:?}) gives {:?} | script {:?} | input {:?}", a, cuts, b, c.script, c.input)),
+    }
+}
+
 pub fn info() -> PropInfo {
     PropInfo {
         id: "C14",
@@ -214,6 +254,8 @@ fn run(ctx: &Ctx) {
         }))
     };
     ctx.run_proptest_with("nil-and-skip-templates", ctx.tier.pick(600_000, 5_000_000), nil, check_extra);
+    ctx.run_proptest_with("scripted-targets", ctx.tier.pick(800_000, 6_000_000), || Box::new(super::c07::dyn_case_strategy(false)), check_dyn);
+    ctx.run_proptest_with("scripted-targets-x-token-soup", ctx.tier.pick(200_000, 2_000_000), || Box::new(super::c07::dyn_case_strategy(true)), check_dyn);
     let soup = || {
         Box::new((prop::collection::vec(any::<u16>(), 0..14), prop::sample::select(ALL_TYPES.to_vec()), cuts_strategy()).prop_map(|(ws, ty, (sel, rnd))| {
             let input = ws.iter().map(|w| VOCAB[scale(*w, VOCAB.len())]).collect::<Vec<_>>().concat();
@@ -225,7 +267,11 @@ fn run(ctx: &Ctx) {
 }
 
 fn replay(stage: &str, case: &Value) -> Result<Verdict, String> {
-    if stage == "extra-targets" {
+    if case.get("script").is_some() {
+        let c: super::c07::DynCase = serde_json::from_value(case.clone()).map_err(|e| e.to_string())?;
+        return Ok(check_dyn(&c));
+    }
+    if stage == "extra-targets" || case.get("target").is_some() {
         let c: ExtraCase = serde_json::from_value(case.clone()).map_err(|e| e.to_string())?;
         return Ok(check_extra(&c));
     }
